@@ -1,8 +1,220 @@
-import Driver.Proto
-namespace Driver.C01
+/-
+Driver mode `c01` (VPSC: every constraint satisfied on return or reported unsatisfiable).
 
-def run (_args : List String) : IO UInt32 := do
-  IO.eprintln "driver mode c01: not implemented yet"
-  return 2
+Per case (see harness/c01.cpp for the line protocol):
+ * V  : the implementation's outputs are judged by the proven checkers of `Check/Vpsc.lean`
+        (`checkPost`, `feasible`) → SPECFAIL;
+ * Tie: for the incremental solvers the Rat model `Model/Vpsc.lean` is run on the same history and
+        compared (positions to 1e-6·scale, flags / active sets / return value / thrown-or-returned
+        exactly) whenever every order decision of the model had margin > 1e-7·scale → DIVERGE.
+-/
+import Driver.Proto
+import AdaptaVerif.Model.Vpsc
+import AdaptaVerif.Check.Vpsc
+namespace Driver.C01
+open Driver AdaptaVerif.Num AdaptaVerif.Model.Vpsc
+open AdaptaVerif.Check.Vpsc (C checkPost firstBad feasible Verdict sumW)
+
+inductive Op where
+  | add (j : Nat)
+  | move (i : Nat) (d : Rat)
+  | satisfy
+  | solve
+  deriving Inhabited
+
+structure Out where
+  status : String
+  ret : Bool
+  pos : Array Dbl
+  uns : Array Bool
+  act : Array Bool
+  deriving Inhabited
+
+def bits (s : String) : Array Bool := (s.toList.map (· == '1')).toArray
+
+def ratStr (x : Rat) : String :=
+  let f : Float := Float.ofInt x.num / Float.ofNat x.den
+  toString f
+
+def tolAbs : Rat := 1 / 1000000
+def guardRel : Rat := 1 / 10000000
+
+def worse (old new : Driver.Verdict) : Driver.Verdict :=
+  match old, new with
+  | .specfail m, _ => .specfail m
+  | _, .specfail m => .specfail m
+  | .diverge m, _ => .diverge m
+  | _, v => v
+
+def checkCase (c : Case) : CaseResult := Id.run do
+  let impl := ((c.get1 "impl").getD #["?"])[0]!
+  let n := nat! (((c.get1 "n").getD #["0"])[0]!)
+  -- variables
+  let mut vs : Array (Rat × Rat × Rat) := Array.replicate n (0, 1, 1)
+  let mut dataMax : Rat := 0
+  for l in c.get "var" do
+    match nums? (l.extract 1 4) with
+    | some v =>
+      vs := vs.set! (nat! l[0]!) (v[0]!, v[1]!, v[2]!)
+      dataMax := if rabs v[0]! > dataMax then rabs v[0]! else dataMax
+    | none => return { verdict := .diverge "unparsable var line" }
+  let mut allCons : Array Con := #[]
+  for l in c.get "con" do
+    match num? l[3]! with
+    | some g =>
+      allCons := allCons.push (mkCon (nat! l[1]!) (nat! l[2]!) g (l[4]! == "1"))
+      dataMax := if rabs g > dataMax then rabs g else dataMax
+    | none => return { verdict := .diverge "unparsable con line" }
+  let m0 := nat! (((c.get1 "init").getD #["0"])[0]!)
+  let mut ops : Array Op := #[]
+  for l in c.get "op" do
+    let kind := l[1]!
+    if kind == "add" then ops := ops.push (.add (nat! l[2]!))
+    else if kind == "move" then
+      match num? l[3]! with
+      | some d =>
+        ops := ops.push (.move (nat! l[2]!) d)
+        dataMax := if rabs d > dataMax then rabs d else dataMax
+      | none => return { verdict := .diverge "unparsable move" }
+    else if kind == "satisfy" then ops := ops.push .satisfy
+    else ops := ops.push .solve
+  -- outputs by op index
+  let mut outs : Array (Option Out) := Array.replicate ops.size none
+  for l in c.get "out" do
+    let t := nat! l[0]!
+    let posL := ((c.get "pos").filter fun p => nat! p[0]! == t)[0]?
+    let unsL := ((c.get "uns").filter fun p => nat! p[0]! == t)[0]?
+    let actL := ((c.get "act").filter fun p => nat! p[0]! == t)[0]?
+    match posL, unsL, actL with
+    | some p, some u, some a =>
+      match (p.extract 1 p.size).mapM dbl? with
+      | some ds =>
+        outs := outs.set! t (some { status := l[1]!, ret := l[2]! == "1", pos := ds,
+                                    uns := bits (u[1]?.getD ""), act := bits (a[1]?.getD "") })
+      | none => return { verdict := .diverge "unparsable pos" }
+    | _, _, _ => return { verdict := .diverge s!"missing pos/uns/act for op {t}" }
+  let scaleD : Rat := 1 + dataMax
+  let tol := tolAbs * scaleD
+  let scaleFn : Nat → Rat := fun i => (vs.getD i (0, 1, 1)).2.2
+  let isInc := impl != "vpsc-static"
+  -- run
+  let mut st : St := St.init vs (allCons.extract 0 m0)
+  let mut verdict : Driver.Verdict := .ok
+  let mut stats : List (String × Nat) := [("impl." ++ impl, 1)]
+  let mut curM := m0
+  let mut modelAlive := isInc
+  let mut nontrivial := false
+  let mut t := 0
+  for op in ops do
+    match op with
+    | .add _ =>
+      st := st.addConstraint allCons[curM]!
+      curM := curM + 1
+    | .move i d => st := st.setDesired i d
+    | _ =>
+      let isSolve := match op with | .solve => true | _ => false
+      match outs[t]! with
+      | none => pure ()     -- not executed (an earlier op threw)
+      | some o =>
+        stats := bumpStats stats (if isSolve then "op.solve" else "op.satisfy") 1
+        let cs : List C := ((allCons.extract 0 curM).map fun k => ({ l := k.l, r := k.r, gap := k.gap, eq := k.eq } : C)).toList
+        let flags : List Bool := (List.range curM).map fun j => o.uns.getD j false
+        let anyFlag := flags.any id
+        let anyEq := cs.any (·.eq)
+        if anyFlag then stats := bumpStats stats "impl.flagged" 1
+        -- ---------- V: proven checkers on the implementation's output
+        if o.status == "ret" then
+          if !(o.pos.all (·.isFinite)) || o.pos.size != n then
+            verdict := worse verdict (.specfail s!"op {t}: non-finite or missing final position")
+          else
+            let posA := o.pos.map (·.val)
+            let posFn : Nat → Rat := fun i => posA.getD i 0
+            if !(checkPost tol scaleFn posFn (cs.zip flags)) then
+              let j := (firstBad tol scaleFn posFn (cs.zip flags)).getD 0
+              let cj := cs.getD j default
+              verdict := worse verdict (.specfail s!"op {t}: unflagged constraint {j} (v{cj.l}+{ratStr cj.gap}{if cj.eq then "==" else "<="}v{cj.r}) violated: slack={ratStr (AdaptaVerif.Check.Vpsc.slack scaleFn posFn cj)} tol={ratStr tol}")
+            if !anyEq then
+              match feasible n cs with
+              | .feasible _ =>
+                stats := bumpStats stats "sys.feasible" 1
+                if anyFlag then
+                  verdict := worse verdict (.specfail s!"op {t}: constraint flagged unsatisfiable but the system is feasible (potentials certified)")
+              | .infeasible cyc =>
+                stats := bumpStats stats "sys.infeasible" 1
+                if !anyFlag && sumW cyc > tol * cyc.length then
+                  verdict := worse verdict (.specfail s!"op {t}: system infeasible (certified cycle of {cyc.length} edges, total gap {ratStr (sumW cyc)}) but nothing flagged")
+              | .unknown =>
+                verdict := worse verdict (.diverge s!"op {t}: feasibility checker produced no certificate")
+            else stats := bumpStats stats "sys.withEq" 1
+        else
+          stats := bumpStats stats ("impl." ++ o.status) 1
+          if !isInc then
+            -- the static solver is only driven on inequality DAGs (always feasible): it must not throw
+            verdict := worse verdict (.diverge s!"op {t}: static solver threw ({o.status}) on an acyclic inequality system")
+        -- ---------- Tie: the model
+        if modelAlive then
+          let (st', oc) := if isSolve then st.solve else st.satisfy
+          st := st'
+          let guarded := st.margin > guardRel * scaleD
+          match oc with
+          | .outOfFuel =>
+            modelAlive := false
+            stats := bumpStats stats "model.outOfFuel" 1
+            if o.status == "ret" then
+              verdict := worse verdict (.diverge s!"op {t}: model ran out of fuel but the implementation returned")
+          | .threw =>
+            modelAlive := false
+            stats := bumpStats stats "model.threw" 1
+            if guarded && o.status == "ret" then
+              verdict := worse verdict (.diverge s!"op {t}: model throws (exit scan) but the implementation returned")
+          | .ok mpos mret =>
+            if !(st.invOk && st.eqActive) then
+              stats := bumpStats stats "model.invariantBroken" 1
+              verdict := worse verdict (.diverge s!"op {t}: block invariant does not hold in the model state after the call")
+            else stats := bumpStats stats "model.invariantChecked" 1
+            if o.status != "ret" then
+              modelAlive := false
+              if guarded then
+                verdict := worse verdict (.diverge s!"op {t}: implementation threw ({o.status}) but the model returns")
+            else if guarded then
+              stats := bumpStats stats "guarded.strict" 1
+              let mut bad : Option String := none
+              for i in [0:n] do
+                let pi := (o.pos.getD i .nan).val
+                if rabs (pi - mpos.getD i 0) > tol then
+                  bad := some s!"position of v{i}: impl {ratStr pi} model {ratStr (mpos.getD i 0)}"
+              for j in [0:curM] do
+                let cj := st.cons[j]!
+                if cj.unsat != o.uns.getD j false then
+                  bad := some s!"unsatisfiable flag of constraint {j}: impl {o.uns.getD j false} model {cj.unsat}"
+                else if cj.active != o.act.getD j false then
+                  bad := some s!"active flag of constraint {j}: impl {o.act.getD j false} model {cj.active}"
+              if mret != o.ret then bad := some s!"return value: impl {o.ret} model {mret}"
+              match bad with
+              | some msg =>
+                modelAlive := false
+                verdict := worse verdict (.diverge s!"op {t}: {msg} (min decision margin {ratStr st.margin})")
+              | none => pure ()
+            else
+              stats := bumpStats stats "guarded.loose" 1
+    t := t + 1
+  if isInc then
+    stats := bumpStats stats "model.merge" st.nMerge
+    stats := bumpStats stats "model.splitBlocks" st.nSplit
+    stats := bumpStats stats "model.splitBetween" st.nSplitBetween
+    stats := bumpStats stats "model.flagPath" st.nFlagPath
+    stats := bumpStats stats "model.flagNoSplitPoint" st.nFlagNoSplit
+    stats := bumpStats stats "model.resatisfiedBySplit" st.nResat
+    nontrivial := st.nMerge + st.nSplit + st.nSplitBetween + st.nFlagPath + st.nFlagNoSplit > 0
+  else
+    nontrivial := outs.any fun o => match o with
+      | some o => o.act.any id
+      | none => false
+  stats := bumpStats stats "size.n" n
+  stats := bumpStats stats "size.m" allCons.size
+  return { verdict := verdict, nontrivial := nontrivial, stats := stats }
+
+def run (_args : List String) : IO UInt32 :=
+  runCases checkCase
 
 end Driver.C01
